@@ -294,12 +294,20 @@ def r7(ctx):
     c07.r5(ctx, P, "C12.R7")
 
 
-RULES = [r1, r2, r3, r4, r5, r6, r7]
+def r8(ctx):
+    """make_read_only writes a header without first writing an entry at the start of the log, so
+    whatever an earlier crash left behind the accepted entries must have been cut off when the log
+    was opened (same clause as C02.R12, defect D24): a crash during the call recovers all data"""
+    from . import c02
+    c02.cut_behind_accepted(ctx, P, "C12.R8")
+
+
+RULES = [r1, r2, r3, r4, r5, r6, r7, r8]
 CONTROLS = ["c12_secret_exported_elsewhere"]
 EXPLANATION = ("C12 (secret key hygiene): decides that every effect of append_batch is dominated by the Some(secret) arm and the None arm returns Err(NotWritable) "
                "effect-free (R1); that make_read_only clears both in-memory copies before a ?-checked flush with clear_traces = true, returns Ok(true) only after it, and on a core that is already read-only returns Ok(false) only after the same flush — a crash between the two header writes of an earlier call leaves the key in the slot that is not current (R2); "
                "that a trace-clearing flush rewrites both header slots, each padded to the whole 4096-byte slot with zeros, truncating the log between the two writes so that a crash inside it recovers (R3); that SigningKey bytes are exported by exactly "
                "one function, used only inside the oplog header encoder, itself reached only through insert_header (R4); that open together with a key pair is rejected before "
-               "storage is touched, that nothing takes / replaces / assigns options.key_pair on a way to that guard, and opening passes no key (R5); that the opened identity and writability come from the stored header (R6). R7: the header-slot fallback that recovers a crash during make_read_only remembers header bits consistent with the slot it uses (shared with C07.R5).")
+               "storage is touched, that nothing takes / replaces / assigns options.key_pair on a way to that guard, and opening passes no key (R5); that the opened identity and writability come from the stored header (R6). R7: the header-slot fallback that recovers a crash during make_read_only remembers header bits consistent with the slot it uses (shared with C07.R5). R8: Oplog::open cuts off whatever follows the accepted entries, so that the header make_read_only writes cannot make stale entries current again (shared with C02.R12).")
 NOT_DECIDED = "that no file contains the key bytes (a byte search over storage); crash outcomes inside make_read_only; that stale entries hold no key (they never contain key material by R4)."
 ASSUMPTIONS = ["ed25519-dalek's Debug/Display impls do not print the secret"]
